@@ -340,6 +340,73 @@ def inserting(sk, *xs):
     return True
 
 
+def ref_nest(sk, *xs):
+    """depth-2 nest whose *outer* loop is a dense reference traversal (iterShapeRef / iterActiveShapeRef / iterRangeShapeRef): the rows of the
+    inner rank's trace still name the outer element being visited"""
+    M, K = sk["adims"]
+    A = [[xs[m * K + k] for k in range(K)] for m in range(M)]
+    reset_metrics()
+    a = kernels.mk_tensor(["M", "K"], A, False)
+    Metrics.beginCollect()
+    Metrics.trace("K", type_="iter", consumable=True)
+    root = a.getRoot()
+    if sk["outer"] == "shape":
+        it = root.iterShapeRef()
+    elif sk["outer"] == "active":
+        it = root.iterActiveShapeRef()
+    else:
+        it = root.iterRangeShapeRef(0, M)
+    want = []
+    for m, a_k in it:
+        for k, v in a_k:
+            want.append((m, k))
+    rows = Metrics.consumeTrace("K", "iter")
+    Metrics.endCollect()
+    body = rows[1:] if rows else []
+    if [(r[2], r[3]) for r in body] != want:
+        return fail("K iter rows name the elements %r, visited were %r" % ([(r[2], r[3]) for r in body], want))
+    return _ordered(body, 2, True) or fail("stamps not strictly increasing")
+
+
+def drain_nest(sk, *xs):
+    """consumable traces drained once per outer iteration (batches kept) deliver, concatenated, exactly the rows of a single drain at the
+    end - also when some drains find nothing"""
+    M, K = sk["adims"]
+    A = [[xs[m * K + k] for k in range(K)] for m in range(M)]
+    B = sk["B"]
+    tys = ("iter", "intersect_0", "intersect_1")
+    outs = []
+    for mode in ("end", "each"):
+        reset_metrics()
+        a = kernels.mk_tensor(["M", "K"], A, True)       # explicit zeros: all-zero rows are visited by getPayload-style loops below
+        b = kernels.mk_tensor(["K"], B, False)
+        Metrics.beginCollect()
+        for ty in tys:
+            Metrics.trace("K", type_=ty, consumable=True)
+        got = {ty: [] for ty in tys}
+        batches = {ty: [] for ty in tys}
+        for m in range(M):
+            a_k = a.getRoot().getPayload(m)
+            for k, (av, bv) in a_k & b.getRoot():
+                pass
+            if mode == "each":
+                for ty in tys:
+                    batches[ty].append(Metrics.consumeTrace("K", ty))
+        if mode == "each":
+            for ty in tys:
+                for bt in batches[ty]:
+                    got[ty] += list(bt)
+        else:
+            for ty in tys:
+                got[ty] = list(Metrics.consumeTrace("K", ty))
+        Metrics.endCollect()
+        outs.append(got)
+    for ty in tys:
+        if outs[0][ty] != outs[1][ty]:
+            return fail("%s: rows drained once per outer iteration %r differ from a single drain %r" % (ty, outs[1][ty], outs[0][ty]))
+    return True
+
+
 def tuple_nest(sk, *xs):
     """depth-2 nest whose outer rank has tuple coordinates (a flattened rank whose shape is registered with Metrics.associateShape):
     the rows of the inner rank's trace name the outer element by its flattened integer coordinate, whether or not the outer rank is traced"""
@@ -478,6 +545,10 @@ def obligations(tier):
         obs.append(Ob("inserting/%dx%d" % (nz, na), "inserting", dict(nz=nz, na=na, S=8), zn + an, chain_pre(zn) + chain_pre(an) + bound_pre(zn + an, 0, 8)))
     for A, B in [([[1, 0, 2], [0, 3, 4]], [5, 6, 0]), ([[1, 1, 1], [1, 1, 1]], [1, 1, 1]), ([[0, 0, 0], [0, 0, 0]], [1, 1, 1])]:
         obs.append(Ob("flush/%s" % "".join(str(v) for r in A for v in r), "flush", dict(A=A, B=B), ["n"], ["2 <= n"]))
+    obs.append(Ob("drain-nest/2x2/20", "drain_nest", dict(adims=[2, 2], B=[2, 0]), names("v", 4), []))
+    obs.append(Ob("drain-nest/3x2/03", "drain_nest", dict(adims=[3, 2], B=[0, 3]), names("v", 6), []))
+    for outer in ("shape", "active", "range"):
+        obs.append(Ob("ref-nest/%s/2x2" % outer, "ref_nest", dict(adims=[2, 2], outer=outer), names("v", 4), []))
     for outer in (False, True):
         obs.append(Ob("tuple-nest/2x2x2/%s" % ("outer-traced" if outer else "outer-untraced"), "tuple_nest", dict(S0=2, S1=2, NK=2, outer=outer), names("v", 8), []))
     obs.append(Ob("flush/both/102034", "flush", dict(A=[[1, 0, 2], [0, 3, 4]], B=[5, 6, 0], both=True), ["n"], ["2 <= n"]))
